@@ -26,7 +26,12 @@ RULE = ("cases: (spectrum, parameter object) pairs — dyadic/integer spectra wi
         "boundaries, random float spectra; max_bond_dim in {1..len+1, 100, inf}, tolerances in {-inf, 0, "
         "dyadics, values of the spectrum, 1e-15, +inf}, all flag combinations; validation of parameter "
         "objects; random tree states (<= 8 nodes, decaying or rank-deficient bonds) truncated recursively or "
-        "by sweeping. non-trivial = distinct case in which something is discarded, the cap or the keep-one "
+        "by sweeping. Input-space audit: spectra scaled by 2^+-27 .. 2^+-60, integer / single-precision / strided / "
+        "read-only spectrum arrays, parameter objects built positionally, with documented defaults by omission, by "
+        "setting attributes, or one shared object re-used for all calls; truncated_tensor_svd and "
+        "contr_truncated_svd_splitting (all contraction modes) on tensors with designed spectra for arbitrary "
+        "parameters; tree states with prefix-related identifiers, nodes with 0 / 2 open legs, norms 1e-8 .. 1e8, and "
+        "a second truncation of the same object. non-trivial = distinct case in which something is discarded, the cap or the keep-one "
         "branch is taken, a tie occurs, or renormalisation rescales")
 PARTIAL = ["tree level, error bound: proved are (i) one projector insertion at the orthogonality centre changes the "
            "state by exactly the discarded weight (single_projector_error, root_step_bound; SVD and isometric "
@@ -263,7 +268,16 @@ def _desc(vals):
 
 
 def gen_spectrum(rng):
-    kind = rng.choice(["dyadic", "dyadic", "tie", "zeros", "single", "ints", "pow4", "float", "float", "zero_tail"])
+    kind = rng.choice(["dyadic", "dyadic", "tie", "zeros", "single", "ints", "pow4", "float", "float", "zero_tail",
+                       "scaled"])
+    if kind == "scaled":
+        # very large / very small spectra (|psi|^2 ~ 1e+-16 and beyond); a power-of-two factor keeps every value and
+        # every threshold product exact, so these are compared exactly like the O(1) spectra
+        _, base = gen_spectrum(rng)
+        while not any(base):
+            _, base = gen_spectrum(rng)
+        f = 2.0 ** rng.choice([-60, -40, -27, 27, 30, 40, 60])
+        return kind, [x * f for x in base]
     if kind == "dyadic":
         n = rng.randint(1, 8)
         return kind, _desc(rng.randint(0, 16) / 2 ** rng.randint(0, 4) for _ in range(n))
@@ -325,6 +339,62 @@ def gen_params(rng, s, kind):
             "sum_renorm": sum_renorm}
 
 
+FIELDS = ("D", "rel", "tot", "renorm", "sum_trunc", "sum_renorm")
+KWNAMES = {"D": "max_bond_dim", "rel": "rel_tol", "tot": "total_tol", "renorm": "renorm", "sum_trunc": "sum_trunc",
+           "sum_renorm": "sum_renorm"}
+# documented defaults of SVDParameters (class docstring; sum_renorm: signature and the `norming` default of
+# sum_truncation / _sum_truncation_index)
+DEFAULTS = {"D": 100, "rel": 1e-15, "tot": 1e-15, "renorm": False, "sum_trunc": False, "sum_renorm": True}
+
+
+def _is_f32(x) -> bool:
+    return math.isinf(x) or float(np.float32(x)) == float(x)
+
+
+def audit_trunc(rng, case):
+    """Input-space audit (notes/C10.md): how the parameter object comes into being (keywords / positional /
+    documented defaults by omission / attributes set on an existing object / one shared object re-used for all
+    calls), element type and memory layout of the spectrum."""
+    import random as _r
+    r = _r.Random(rng.randrange(10 ** 9))
+    s, prm = case["s"], case["prm"]
+    case["ctor"] = r.choice(["kw", "kw", "pos", "omit", "set", "reuse"])
+    if case["ctor"] == "omit":
+        om = [f for f in FIELDS if r.random() < 0.5] or [r.choice(FIELDS)]
+        for f in om:
+            prm[f] = DEFAULTS[f]
+        case["omit"] = om
+    arr = r.choice(["f64", "f64", "readonly", "strided", "int", "f32"])
+    if arr == "int" and not all(float(x).is_integer() and abs(x) < 2 ** 20 for x in s):
+        arr = "f64"      # (integer-typed spectra >= 2**31.5 overflow in `s_val**2`: outside, SVD never returns integers)
+    if arr == "f32":
+        # single precision only where every float32 operation of the value rule is exact (no renormalisation,
+        # no sum rule: their float32 round-off is not modelled)
+        ok = (not prm["renorm"] and not prm["sum_trunc"] and all(_is_f32(x) for x in s)
+              and _is_f32(prm["rel"]) and _is_f32(prm["tot"])
+              and (math.isinf(prm["rel"]) or _is_f32(prm["rel"] * s[0])))
+        if not ok:
+            arr = "f64"
+    case["arr"] = arr
+    return case
+
+
+def make_arr(s, case):
+    how = case.get("arr", "f64")
+    if how == "int":
+        return np.array([int(x) for x in s], dtype=np.int64)
+    if how == "f32":
+        return np.array(s, dtype=np.float32)
+    a = np.array(s, dtype=float)
+    if how == "strided":
+        big = np.full(2 * len(s), -5.0)
+        big[::2] = a
+        return big[::2]
+    if how == "readonly":
+        a.flags.writeable = False
+    return a
+
+
 VALID_D = [1, 2, 100, 0, -1, -7, INF, -INF, 2.5, 3.0, float("nan"), 10 ** 6]
 VALID_T = [-INF, -1.0, -1e-300, -0.0, 0.0, 1e-15, 0.5, 1.0, INF]
 
@@ -355,17 +425,70 @@ def gen_cases(ctx):
         cases.append({"kind": "trunc", "gen": "hand", "s": s, "prm": prm})
     for _ in range(ctx.n(5000, 100000)):
         kind, s = gen_spectrum(rng)
-        cases.append({"kind": "trunc", "gen": kind, "s": s, "prm": gen_params(rng, s, kind)})
+        cases.append(audit_trunc(rng, {"kind": "trunc", "gen": kind, "s": s, "prm": gen_params(rng, s, kind)}))
+    for _ in range(ctx.n(160, 2000)):
+        cases.append(gen_tsvd_case(rng))
     for _ in range(ctx.n(400, 2500)):
         cases.append({"kind": "tree", "seed": rng.randrange(10 ** 9), "n": rng.choice([1, 2, 3, 3, 4, 5, 6, 7, 8]),
                       "method": rng.choice(["recursive", "svd"]),
                       "shape": rng.choice(["decay", "decay", "random", "lowrank"]),
-                      "prm": {"D": rng.choice([1, 2, 3, 4, 100, INF]),
-                              "rel": rng.choice([-INF, 1e-15, 0.05, 0.3]),
-                              "tot": rng.choice([-INF, 1e-15, 0.05, 0.3]),
-                              "renorm": rng.random() < 0.2, "sum_trunc": rng.random() < 0.4,
-                              "sum_renorm": rng.random() < 0.5}})
+                      "prm": _tree_prm(rng)})
+        audit_tree(rng, cases[-1])
     return cases
+
+
+def _tree_prm(rng):
+    return {"D": rng.choice([1, 2, 3, 4, 100, INF]),
+            "rel": rng.choice([-INF, 1e-15, 0.05, 0.3]),
+            "tot": rng.choice([-INF, 1e-15, 0.05, 0.3]),
+            "renorm": rng.random() < 0.2, "sum_trunc": rng.random() < 0.4,
+            "sum_renorm": rng.random() < 0.5}
+
+
+# (identifiers that EQUAL a temporary identifier of recursive_truncation, "<a>_identity_<b>" / "<a>_projector_<b>" /
+#  "<a>_projectorstar_<b>" of two other nodes a, b, make it fail with KeyError: recorded in notes/C10.md as outside)
+NAME_POOL = ["n1", "n10", "n100", "n", "1", "10", "n1_identity", "projector_n1", "n1contrn10", "N1", "n 1",
+             "n1_", "_n1", "n01"]
+
+
+def audit_tree(rng, case):
+    """Input-space audit: identifiers that are prefixes / substrings of each other (and of the temporary identifiers
+    recursive_truncation builds), nodes with no or two open legs, norms from 1e-8 to 1e8, and a SECOND truncation of
+    the same object (other method / other parameters): every call is judged on its own."""
+    import random as _r
+    r = _r.Random(rng.randrange(10 ** 9))
+    case["names"] = r.random() < 0.35
+    case["opens"] = r.choice(["one", "one", "mixed"])
+    case["norm"] = r.choice([None, None, None, 1e-8, 1e8])
+    if r.random() < 0.3:
+        case["again"] = {"method": r.choice(["recursive", "svd"]), "prm": _tree_prm(r)}
+    return case
+
+
+# ------------------------------------------------------------------ tensor level: truncated SVD with any parameters
+
+TSVD_SPECTRA = [[1.0, 0.5, 0.25, 0.1, 1e-3, 1e-8], [1.0, 1.0, 0.5, 0.5, 0.0, 0.0], [3.0, 0.3, 0.03, 0.003],
+                [1.0, 0.9, 0.8, 0.7, 0.6, 0.5], [2.0, 1e-4, 1e-9, 0.0], [1.0], [5.0, 4.0, 3.0, 0.0]]
+
+
+def gen_tsvd_case(rng):
+    order = rng.choice([2, 2, 3, 3, 4])
+    while True:
+        sh = [rng.choice([1, 2, 2, 3, 4]) for _ in range(order)]
+        if 1 < int(np.prod(sh)) <= 96:
+            break
+    legs = list(range(order))
+    rng.shuffle(legs)
+    cut = rng.randint(1, order - 1) if order > 1 else 1
+    sc = rng.choice([1.0, 1.0, 1.0, 30.0, 1e-8, 1e8])
+    prm = {"D": rng.choice([1, 2, 3, 100, INF]), "rel": rng.choice([-INF, 1e-15, 0.05, 0.3, 0.6]),
+           "tot": rng.choice([-INF, 1e-15, 0.05, 0.3]) , "renorm": rng.random() < 0.4,
+           "sum_trunc": rng.random() < 0.4, "sum_renorm": rng.random() < 0.5}
+    if prm["tot"] > 0 and rng.random() < 0.6:
+        prm["tot"] = prm["tot"] * sc            # an absolute tolerance that bites at the scale of the data
+    return {"kind": "tsvd", "shape": sh, "a": legs[:cut], "b": legs[cut:], "seed": rng.randrange(10 ** 9),
+            "spec": rng.randrange(len(TSVD_SPECTRA)), "scale": sc, "complex": rng.random() < 0.6, "prm": prm,
+            "ctor": rng.choice(["kw", "pos", "set"])}
 
 
 def model_lines(case):
@@ -413,6 +536,8 @@ def run_case(ctx, case, model_out=None):
         _case_valid(ctx, case, model_out[0])
     elif kind == "trunc":
         _case_trunc(ctx, case, model_out)
+    elif kind == "tsvd":
+        _case_tsvd(ctx, case)
     else:
         _case_tree(ctx, case)
 
@@ -449,8 +574,28 @@ def _case_valid(ctx, case, model_out):
 
 # ------------------------------------------------------------------ one truncation call
 
-def _params(prm):
+_SHARED = []
+
+
+def _params(prm, case=None):
     from pytreenet.util.tensor_splitting import SVDParameters
+    ctor = (case or {}).get("ctor", "kw")
+    vals = [prm[f] for f in FIELDS]
+    if ctor == "pos":                   # field order of the dataclass is part of the public signature
+        return SVDParameters(*vals)
+    if ctor == "omit":                  # documented defaults
+        return SVDParameters(**{KWNAMES[f]: prm[f] for f in FIELDS if f not in case["omit"]})
+    if ctor in ("set", "reuse"):        # public attributes of a plain dataclass, set after construction
+        if ctor == "reuse":
+            if not _SHARED:
+                _SHARED.append(SVDParameters())
+            p = _SHARED[0]
+        else:
+            p = SVDParameters()
+        for f in FIELDS:
+            setattr(p, KWNAMES[f], prm[f])
+        p.check_truncation_parameters()
+        return p
     return SVDParameters(max_bond_dim=prm["D"], rel_tol=prm["rel"], total_tol=prm["tot"], renorm=prm["renorm"],
                          sum_trunc=prm["sum_trunc"], sum_renorm=prm["sum_renorm"])
 
@@ -458,16 +603,24 @@ def _params(prm):
 def _case_trunc(ctx, case, model_out):
     from pytreenet.util import tensor_splitting as ts
     s, prm = [float(x) for x in case["s"]], case["prm"]
-    arr = np.array(s, dtype=float)
     try:
         with warnings.catch_warnings():
             warnings.simplefilter("ignore")
-            p = _params(prm)
-            new_s, s_trunc = ts.truncate_singular_values(arr.copy(), p)
+            p = _params(prm, case)
+            new_s, s_trunc = ts.truncate_singular_values(make_arr(s, case), p)
             if prm["sum_trunc"]:
-                direct = int(ts._sum_truncation_index(arr.copy(), prm["tot"], prm["sum_renorm"]))
+                if prm["sum_renorm"] and case.get("ctor") == "omit":       # `norming` omitted: default True
+                    direct = int(ts._sum_truncation_index(make_arr(s, case), prm["tot"]))
+                    d2 = ts.sum_truncation(make_arr(s, case), prm["tot"])
+                else:
+                    direct = int(ts._sum_truncation_index(make_arr(s, case), prm["tot"], prm["sum_renorm"]))
+                    d2 = ts.sum_truncation(make_arr(s, case), prm["tot"], norming=prm["sum_renorm"])
+                if len(d2) != direct or [float(x) for x in d2] != s[:direct]:
+                    ctx.oracle_fail(case, f"sum_truncation(s={s}, {prm['tot']}, norming={prm['sum_renorm']}) returns "
+                                          f"{[float(x) for x in d2]}, not the prefix s[:{direct}] that "
+                                          f"_sum_truncation_index announces")
             else:
-                direct = [float(x) for x in ts.value_truncation(arr.copy(), prm["tot"], prm["rel"])]
+                direct = [float(x) for x in ts.value_truncation(make_arr(s, case), prm["tot"], prm["rel"])]
         new_s = np.asarray(new_s, dtype=float).reshape(-1)
         s_trunc = np.asarray(s_trunc, dtype=float).reshape(-1)
     except Exception as e:          # noqa: BLE001
@@ -483,6 +636,11 @@ def _case_trunc(ctx, case, model_out):
     ctx.tally("mode", ("sum" if prm["sum_trunc"] else "value") + ("+renorm" if prm["renorm"] else ""))
     ctx.tally("spectrum", case.get("gen", "?"))
     ctx.tally("len", len(s))
+    ctx.tally("parameter_object", case.get("ctor", "kw"))
+    for f in case.get("omit", []):
+        ctx.tally("omitted_field", KWNAMES[f])
+    ctx.tally("spectrum_array", case.get("arr", "f64"))
+    ctx.tally("magnitude", "zero" if s[0] == 0 else f"1e{int(math.floor(math.log10(s[0]) / 4) * 4):+d}")
     ctx.tally("exact_tie_at_boundary", bool(info.get("tie")) and not boundary)
     ctx.sample(case, 4)
     if info.get("zero_renorm"):
@@ -520,6 +678,162 @@ def _case_trunc(ctx, case, model_out):
         ctx.oracle_fail(case, f"selection rule: s={s} {prm}: " + "; ".join(probs[:3]))
 
 
+# ------------------------------------------------------------------ tensor level
+
+def _tsvd_tensor(case):
+    import random
+    rng = random.Random(case["seed"])
+    nprng = np.random.default_rng(case["seed"])
+    sh, a, b = case["shape"], case["a"], case["b"]
+    m = int(np.prod([sh[i] for i in a], dtype=int))
+    n = int(np.prod([sh[i] for i in b], dtype=int))
+    k = min(m, n)
+    spec = (TSVD_SPECTRA[case["spec"]] + [0.0] * k)[:k]
+    cplx = case["complex"]
+
+    def unitary(d, cols):
+        x = nprng.standard_normal((d, d)) + (1j * nprng.standard_normal((d, d)) if cplx else 0)
+        return np.linalg.qr(x)[0][:, :cols]
+    mat = (unitary(m, k) * np.array(spec)) @ unitary(n, k).conj().T * case["scale"]
+    t = mat.reshape([sh[i] for i in a] + [sh[i] for i in b])
+    return np.ascontiguousarray(np.transpose(t, np.argsort(a + b))), mat
+
+
+def _case_tsvd(ctx, case):
+    """truncated_tensor_svd and contr_truncated_svd_splitting (all three contraction modes) with ARBITRARY truncation
+    parameters.  `truncate_singular_values` is wrapped from outside: the selection rule is re-evaluated on the live
+    spectrum (check_selection), the returned S must be exactly the kept vector, U / Vh must be the singular vectors
+    of the kept values of the ORIGINAL tensor (U^H T Vh^H = diag(s[:k]), isometries), and the two-factor product
+    must be c times a best rank-k approximation (Eckart-Young equality; c = the renormalisation factor)."""
+    from pytreenet.util import tensor_splitting as ts
+    sh, a, b, prm = case["shape"], case["a"], case["b"], case["prm"]
+    t, mat = _tsvd_tensor(case)
+    m, n = mat.shape
+    s_ref = np.linalg.svd(mat, compute_uv=False)
+    scale = float(np.linalg.norm(mat)) or 1.0
+    calls = []
+    orig = ts.truncate_singular_values
+
+    def spy(sv, svd_params):
+        res = orig(sv, svd_params)
+        calls.append((np.array(sv, dtype=float, copy=True), np.array(res[0], dtype=float, copy=True),
+                      np.array(res[1], dtype=float, copy=True)))
+        return res
+    ua, vb = tuple(a), tuple(b)
+    ud, vd = [sh[i] for i in a], [sh[i] for i in b]
+    la = "".join(chr(97 + i) for i in a)
+    lb = "".join(chr(97 + i) for i in b)
+    full = "".join(chr(97 + i) for i in range(len(sh)))
+    probs = []
+    skipped = False
+    nontriv = False
+    ts.truncate_singular_values = spy
+    try:
+        with warnings.catch_warnings():
+            warnings.simplefilter("ignore")
+            p = _params(prm, case)
+            u, sv, vh = ts.truncated_tensor_svd(t.copy(), ua, vb, p)
+            outs = {}
+            for name, cm in (("vcontr", ts.ContractionMode.VCONTR), ("ucontr", ts.ContractionMode.UCONTR),
+                             ("equal", ts.ContractionMode.EQUAL)):
+                outs[name] = ts.contr_truncated_svd_splitting(t.copy(), ua, vb, cm, p)
+    except Exception as e:          # noqa: BLE001
+        ctx.oracle_fail(case, f"truncated SVD of a tensor raised {type(e).__name__}: {str(e)[:200]}")
+        return
+    finally:
+        ts.truncate_singular_values = orig
+    if len(calls) != 4:
+        probs.append(f"{len(calls)} calls of truncate_singular_values for 4 truncated decompositions")
+    else:
+        for idx, (s_live, new_s, s_tr) in enumerate(calls):
+            if s_live.shape != s_ref.shape or np.max(np.abs(s_live - s_ref)) > 1e-10 * max(s_ref[0], 1e-300):
+                probs.append(f"spectrum handed to the truncation {s_live[:5]} is not the spectrum of the matricised "
+                             f"tensor {s_ref[:5]}")
+                break
+            q, boundary, info = check_selection(list(s_live), prm, new_s, s_tr)
+            if boundary or (info.get("sel") is not None and _near_boundary(s_live, prm)):
+                skipped = True
+                continue
+            ctx.hyp_validated += 1
+            if q:
+                probs.append(f"live spectrum {s_live.tolist()}: " + "; ".join(q[:2]))
+                break
+    if not probs and not skipped:
+        s_live, new_s, _ = calls[0]
+        k = len(new_s)
+        nontriv = k < len(s_live) or prm["renorm"]
+        c = float(new_s[0] / s_live[0]) if s_live[0] > 0 else 1.0
+        tol = 1e-9 * scale
+        if not np.array_equal(np.asarray(sv, dtype=float), new_s):
+            probs.append(f"returned S {np.asarray(sv)[:5]} is not the kept vector {new_s[:5]}")
+        elif list(u.shape) != ud + [k] or list(vh.shape) != [k] + vd:
+            probs.append(f"U / Vh shapes {u.shape} {vh.shape}, expected {ud + [k]} {[k] + vd}")
+        else:
+            um, vm = u.reshape(-1, k), vh.reshape(k, -1)
+            if (np.linalg.norm(um.conj().T @ um - np.eye(k)) > 1e-9 * math.sqrt(k)
+                    or np.linalg.norm(vm @ vm.conj().T - np.eye(k)) > 1e-9 * math.sqrt(k)):
+                probs.append("truncated U / Vh are not isometries")
+            core = np.einsum(f"{la}y,{full},z{lb}->yz", u.conj(), t, vh.conj())
+            if np.linalg.norm(core - np.diag(s_live[:k])) > tol:
+                probs.append(f"U^H T Vh^H is not diag of the {k} largest singular values (error "
+                             f"{np.linalg.norm(core - np.diag(s_live[:k])):.3e}): wrong columns / rows were kept")
+        want = float(np.sqrt(np.sum(s_ref[k:] ** 2)))
+        for j, name in enumerate(("vcontr", "ucontr", "equal")):
+            fa, fb = outs[name]
+            _, ns_j, _ = calls[j + 1]
+            kj = len(ns_j)
+            cj = float(ns_j[0] / s_live[0]) if s_live[0] > 0 else 1.0
+            if kj != k or list(fa.shape) != ud + [kj] or list(fb.shape) != [kj] + vd:
+                probs.append(f"{name}: factor shapes {fa.shape} {fb.shape}, expected {ud + [k]} {[k] + vd}")
+                continue
+            prod = np.einsum(f"{la}z,z{lb}->{full}", fa, fb)
+            err = float(np.linalg.norm(prod / cj - t))
+            if abs(err - want) > tol:
+                probs.append(f"{name}: (product / {cj:.6g}) misses the tensor by {err:.6e}; a best rank-{k} "
+                             f"approximation misses it by {want:.6e}")
+            fam, fbm = fa.reshape(-1, kj), fb.reshape(kj, -1)
+            ga, gb = fam.conj().T @ fam, fbm @ fbm.conj().T
+            ea, eb = {"vcontr": (0, 2), "ucontr": (2, 0), "equal": (1, 1)}[name]
+            big = max(float(ns_j[0]), 1e-300)
+
+            def off(g, e):      # distance of a Gram matrix from S^e, relative to the size of S^e
+                return float(np.linalg.norm(g - np.diag(ns_j ** e))) / (big ** e)
+            if off(ga, ea) > 1e-8 * math.sqrt(kj) or off(gb, eb) > 1e-8 * math.sqrt(kj):
+                probs.append(f"{name}: the (renormalised) singular values are not absorbed as the mode says "
+                             f"(Gram matrices of the factors are not S^{ea} and S^{eb})")
+    ctx.count(("tsvd", case["seed"], tuple(sh), tuple(a)), nontrivial=nontriv, corr=False)
+    ctx.tally("tsvd", "skipped (float boundary)" if skipped else "discarded" if nontriv else "nothing discarded")
+    ctx.tally("tsvd_params", ("sum" if prm["sum_trunc"] else "value") + ("+renorm" if prm["renorm"] else ""))
+    ctx.tally("tsvd_scale", f"{case['scale']:g}")
+    if skipped:
+        ctx.boundary_skipped += 1
+    if probs:
+        ctx.oracle_fail(case, f"tensor-level truncation shape={sh} u={a} v={b} {prm}: " + "; ".join(probs[:3]))
+
+
+def _near_boundary(s_live, prm) -> bool:
+    """Live (rounded) spectra: a decision is not judged when a value / a tail weight is within 1e-9 (relative) of
+    its threshold, because the designed spectrum and the computed one differ by round-off."""
+    s = [float(x) for x in s_live]
+    s0 = s[0]
+    if prm["sum_trunc"]:
+        tot = prm["tot"]
+        if tot in (INF, -INF):
+            return False
+        total = sum(x * x for x in s)
+        thr = tot * tot
+        for j in range(len(s)):
+            w = sum(x * x for x in s[j:])
+            if prm["sum_renorm"] and total > 0:
+                w = w / total
+            if abs(w - thr) <= 1e-9 * max(w, thr):
+                return True
+        return False
+    cuts = [c for c in ((prm["rel"] * s0 if prm["rel"] not in (INF, -INF) else None),
+                        (prm["tot"] if prm["tot"] not in (INF, -INF) else None)) if c is not None]
+    return any(abs(x - c) <= 1e-9 * max(abs(x), abs(c)) + 1e-13 * s0 for x in s for c in cuts)
+
+
 # ------------------------------------------------------------------ tree level
 
 def _build_state(case):
@@ -531,6 +845,21 @@ def _build_state(case):
     par = gen.random_parent_array(rng, n)
     bond = gen.random_bonds(rng, par, (1, 2, 3, 3, 4, 5))
     open_dims = {i: [rng.choice((1, 2, 2, 3))] for i in range(n)}
+    if case.get("opens") == "mixed":
+        # nodes without an open leg (pure branching tensors) and with two open legs
+        arng = random.Random(case["seed"] ^ 0x9E3779B1)
+        for i in range(n):
+            r = arng.random()
+            if r < 0.25 and n > 1:
+                open_dims[i] = []
+            elif r < 0.45:
+                open_dims[i] = [arng.choice((1, 2, 2, 3)), arng.choice((1, 2))]
+        if not any(open_dims.values()):
+            open_dims[0] = [2]
+    names = None
+    if case.get("names"):
+        arng = random.Random(case["seed"] ^ 0x85EBCA6B)
+        names = dict(enumerate(arng.sample(NAME_POOL, n)))
     order = gen.insertion_order(rng, par)
     attach = {i: [] for i in range(n)}
     for x in order:
@@ -549,8 +878,12 @@ def _build_state(case):
             t[r:] = t[:1] * rng.choice([0.0, 1.0])       # rows beyond r: zero or copies of row 0
         tensors[x] = t
     tensors[0] = tensors[0] * rng.choice([1.0, 1.0, 0.01, 30.0, 1e-6, 1e4])
+    if case.get("norm"):
+        # a prescribed norm of the state, spread over all tensors (no single tensor is extreme)
+        f = case["norm"] ** (1.0 / n)
+        tensors = {x: t * f for x, t in tensors.items()}
     ttns, canon, att, names = gen.build_network(TreeTensorNetworkState, par, bond, open_dims, rng, nprng,
-                                                order=order, tensors=tensors)
+                                                order=order, tensors=tensors, names=names)
     if case["method"] == "svd" or rng.random() < 0.3:
         # svd_truncation needs an orthogonality centre (move_orthogonalization_center asserts one);
         # recursive_truncation canonicalises by itself, so it is also fed non-canonical states
@@ -559,18 +892,46 @@ def _build_state(case):
 
 
 def _case_tree(ctx, case):
-    from pytreenet.util import tensor_splitting as ts
-    from pytreenet.core.truncation.recursive_truncation import recursive_truncation
-    from pytreenet.core.truncation.svd_truncation import svd_truncation
-    prm = case["prm"]
     try:
         ttns = _build_state(case)
     except Exception as e:          # noqa: BLE001
         raise common.HarnessError(f"C10 tree generator failed: {type(e).__name__}: {e}")
+    rounds = [(case["method"], case["prm"], "")]
+    if case.get("again"):
+        rounds.append((case["again"]["method"], case["again"]["prm"], "second truncation of the same object: "))
+    any_disc_total, ncalls_total = False, 0
+    for method, prm, label in rounds:
+        probs, any_disc, ncalls = _truncate_once(ctx, case, ttns, method, prm)
+        if probs is None:
+            return
+        any_disc_total = any_disc_total or any_disc
+        ncalls_total += ncalls
+        ctx.tally("tree_method", method + (" (2nd call)" if label else ""))
+        ctx.tally("tree_discarded", "some" if any_disc else "nothing")
+        if probs:
+            ctx.oracle_fail(case, f"{label}{method} truncation, n={case['n']} {prm}: " + "; ".join(probs[:3]))
+            break
+    ctx.count(("tree", case["seed"], case["n"], case["method"]), nontrivial=any_disc_total or ncalls_total > 0,
+              corr=False)
+    ctx.tally("tree_nodes", case["n"])
+    ctx.tally("tree_identifiers", "prefix pool" if case.get("names") else "n<i>")
+    ctx.tally("tree_open_legs", case.get("opens", "one"))
+    ctx.tally("tree_norm", f"{case['norm']:g}" if case.get("norm") else "O(1)")
+    ctx.sample(case, 6)
+
+
+def _truncate_once(ctx, case, ttns, method, prm):
+    """One call of a tree-level truncation routine, judged on its own (state before = whatever the object holds).
+    Returns (problems, something discarded?, number of live truncation calls); problems None = already reported."""
+    from pytreenet.util import tensor_splitting as ts
+    from pytreenet.core.truncation.recursive_truncation import recursive_truncation
+    from pytreenet.core.truncation.svd_truncation import svd_truncation
     order = sorted(ttns.nodes)
     before = copy.deepcopy(ttns)
     v0 = dense.ttns_vector(before, order)
     struct0 = dense.structure(before)
+    if method == "svd" and ttns.orthogonality_center_id is None:
+        ttns.canonical_form(order[0])         # documented precondition of svd_truncation (see ASSUMPTIONS)
     calls = []
     orig = ts.truncate_singular_values
 
@@ -584,10 +945,10 @@ def _case_tree(ctx, case):
         with warnings.catch_warnings():
             warnings.simplefilter("ignore")
             p = _params(prm)
-            out = recursive_truncation(ttns, p) if case["method"] == "recursive" else svd_truncation(ttns, p)
+            out = recursive_truncation(ttns, p) if method == "recursive" else svd_truncation(ttns, p)
     except Exception as e:          # noqa: BLE001
-        ctx.oracle_fail(case, f"{case['method']} truncation raised {type(e).__name__}: {str(e)[:200]}")
-        return
+        ctx.oracle_fail(case, f"{method} truncation raised {type(e).__name__}: {str(e)[:200]}")
+        return None, False, 0
     finally:
         ts.truncate_singular_values = orig
     probs = []
@@ -626,18 +987,14 @@ def _case_tree(ctx, case):
             probs.append("the truncated state contains non-finite entries")
         else:
             diff = float(np.linalg.norm(v1 - v0))
-            if not any_disc and diff > 1e-10 * max(1.0, nrm):
+            # every slack is relative to the norm of the state (round-off of the QR/SVD sweeps is ~1e-15 * norm);
+            # the bound itself is the property's: discarded weight times max(1, norm)
+            if not any_disc and diff > 1e-10 * nrm:
                 probs.append(f"nothing was discarded but the state changed by {diff:.3e} (norm {nrm:.3e})")
-            # every slack is relative to the scale of the data (round-off of the QR/SVD sweeps is ~1e-15 * norm)
-            if not prm["renorm"] and diff > (discarded + 1e-9) * max(1.0, nrm):
-                probs.append(f"state changed by {diff:.6e} > (discarded weight {discarded:.6e} + 1e-9) * max(1, {nrm:.3e})")
-    ctx.count(("tree", case["seed"], case["n"], case["method"]), nontrivial=any_disc or len(calls) > 0, corr=False)
-    ctx.tally("tree_method", case["method"])
-    ctx.tally("tree_nodes", case["n"])
-    ctx.tally("tree_discarded", "some" if any_disc else "nothing")
-    ctx.sample(case, 6)
-    if probs:
-        ctx.oracle_fail(case, f"{case['method']} truncation, n={case['n']} {prm}: " + "; ".join(probs[:3]))
+            if not prm["renorm"] and diff > discarded * max(1.0, nrm) + 1e-9 * nrm:
+                probs.append(f"state changed by {diff:.6e} > discarded weight {discarded:.6e} * max(1, {nrm:.3e}) "
+                             f"+ round-off 1e-9 * norm")
+    return probs, any_disc, len(calls)
 
 
 # ------------------------------------------------------------------ shrinking
@@ -649,9 +1006,18 @@ def shrink(case):
             if len(s) > 1:
                 yield dict(case, s=s[:i] + s[i + 1:])
         prm = case["prm"]
+        if case.get("ctor", "kw") != "kw":
+            yield {k: v for k, v in dict(case, ctor="kw").items() if k != "omit"}
+        if case.get("arr", "f64") != "f64":
+            yield dict(case, arr="f64")
         for key, val in (("renorm", False), ("D", INF), ("rel", -INF), ("tot", -INF if not prm["sum_trunc"] else 0.0)):
             if prm[key] != val:
-                yield dict(case, prm=dict(prm, **{key: val}))
+                c = dict(case, prm=dict(prm, **{key: val}))
+                if key in c.get("omit", []):
+                    c["omit"] = [f for f in c["omit"] if f != key]
+                    if not c["omit"]:
+                        c["ctor"] = "kw"
+                yield c
     elif case["kind"] == "tree":
         if case["n"] > 1:
             yield dict(case, n=case["n"] - 1)
@@ -659,3 +1025,15 @@ def shrink(case):
             yield dict(case, shape="random")
         if case["prm"]["renorm"]:
             yield dict(case, prm=dict(case["prm"], renorm=False))
+        for key, val in (("again", None), ("names", False), ("opens", "one"), ("norm", None)):
+            if case.get(key):
+                yield dict(case, **{key: val})
+    elif case["kind"] == "tsvd":
+        if case["scale"] != 1.0:
+            yield dict(case, scale=1.0)
+        if case["complex"]:
+            yield dict(case, complex=False)
+        prm = case["prm"]
+        for key, val in (("renorm", False), ("D", INF), ("rel", -INF), ("tot", -INF if not prm["sum_trunc"] else 0.0)):
+            if prm[key] != val:
+                yield dict(case, prm=dict(prm, **{key: val}))
